@@ -17,7 +17,7 @@ struct BytesMut { _p: () }   // bytes::BytesMut
 struct Bytes { _p: () }      // bytes::Bytes
 
 impl BytesMut {
-    uninterp spec fn view(&self) -> Seq<u8>;
+    pub uninterp spec fn view(&self) -> Seq<u8>;
 
     // bytes: `BytesMut::new()` is empty.
     #[verifier::external_body]
@@ -87,7 +87,7 @@ impl Default for BytesMut {
 }
 
 impl Bytes {
-    uninterp spec fn view(&self) -> Seq<u8>;
+    pub uninterp spec fn view(&self) -> Seq<u8>;
 
     #[verifier::external_body]
     fn len(&self) -> (r: usize)
@@ -182,6 +182,7 @@ impl BlockDir {
 
 // ---- R6: `Y.drain(..)`: removes every element of Y and yields them in order ----
 #[verifier::external_body]
+#[verifier::reject_recursive_types(T)]
 struct DrainAll<T> { inner: std::vec::IntoIter<T> }
 
 impl<T> DrainAll<T> {
@@ -201,3 +202,13 @@ fn shim_drain_all<T>(v: &mut Vec<T>) -> (it: DrainAll<T>)
         final(v)@.len() == 0,
         it.rem() == old(v)@,
 { DrainAll { inner: std::mem::take(v).into_iter() } }
+
+// `Y.drain(n..)`: removes the elements from index n on and yields them in order (std panics iff n > len).
+#[verifier::external_body]
+fn shim_drain_from<T>(v: &mut Vec<T>, n: usize) -> (it: DrainAll<T>)
+    requires
+        n <= old(v)@.len(),
+    ensures
+        final(v)@ == old(v)@.take(n as int),
+        it.rem() == old(v)@.skip(n as int),
+{ DrainAll { inner: v.split_off(n).into_iter() } }
